@@ -909,6 +909,67 @@ theorem itemList_print_until (arg : Expr) (dirs : List Directive) (hC : CmdCanon
   rw [fbind_ok hun]
   rfl
 
+omit T in
+theorem fexpect_at {st : FState} {t : Tk} {ts : List Tk} (h : At st.p (t :: ts)) :
+    ∃ it p', FileParser.expect t.typ st = .ok (it, { st with p := p' }) ∧ it.typ = t.typ ∧ it.val = t.val ∧ Just p' it ts := by
+  obtain ⟨it, p', hn, a, b, c⟩ := expect_at h
+  exact ⟨it, p', liftP_ok hn, a, b, c⟩
+
+/-- a TEMPLATE around the tag, token level: `beginTag` on `template` `.name` `}` `{` the printed print command `}` `{`
+    `/template` `}` gives the template node (no attributes: autoescape unspecified, not private) whose body is the list
+    with the one print node -/
+theorem template_print (arg : Expr) (dirs : List Directive) (hC : CmdCanon ff pf arg dirs) (ef fuel : Nat)
+    (hE : ExprFuel ff ef arg dirs) (hf : ∀ d ∈ dirs, d.args.length + dirs.length + 1 < fuel) (hf' : dirs.length < fuel)
+    (tv ev name : Bytes) (rest : List Tk) (st : FState)
+    (hst : At st.p (⟨.tTemplate, tv⟩ :: ⟨.tDotIdent, name⟩ :: tRD :: ⟨.tLeftDelim, [123]⟩ ::
+      (unsp (piecesBody ff arg dirs) ++ tRD :: ⟨.tLeftDelim, [123]⟩ :: ⟨.tTemplateEnd, ev⟩ :: tRD :: rest))) :
+    ∃ tpos lpos pos e' ds' p', beginTag pf ef (fuel + 5) st =
+        .ok (some (Node.template tpos (st.ns ++ name) (.list lpos (.cons (Node.print pos e' ds') .nil)) .unspecified false),
+          { st with p := p' }) ∧
+      erase e' = erase arg ∧ ds'.map eraseDir = dirs.map eraseDir ∧ At p' rest := by
+  obtain ⟨tt, p1, hn1, htt, _, hj1⟩ := fnext_at hst
+  have htt' : tt.typ = .tTemplate := htt
+  obtain ⟨di, p2, hx2, _, hdv, hj2⟩ := fexpect_at (st := { st with p := p1 }) hj1.at
+  have hdv' : di.val = name := hdv
+  obtain ⟨r1, p3, hn3, hr1, hr1v, hj3⟩ := fnext_at (st := { st with p := p2 }) hj2.at
+  have hr1' : r1.typ = .tRightDelim := hr1
+  obtain ⟨p4, hb4, ha4⟩ := fbackup_just (st := { st with p := p3 }) hj3
+  rw [tk_eq hr1 hr1v] at ha4
+  obtain ⟨_, p5, hx5, _, _, hj5⟩ := fexpect_at (st := { st with p := p4 }) ha4.at
+  obtain ⟨lpos, pos, e', ds', p6, hil, he, hd, ha6⟩ := itemList_print_until ff pf T arg dirs hC ef fuel hE hf hf'
+    [.tTemplateEnd] (by decide) (by decide) ⟨.tTemplateEnd, ev⟩ (by simp) (tRD :: rest) { st with p := p5 } hj5.at
+  obtain ⟨_, p7, hx7, _, _, hj7⟩ := fexpect_at (st := { st with p := p6 }) ha6
+  refine ⟨tt.pos, lpos, pos, e', ds', p7, ?_, he, hd, hj7.at⟩
+  have hpa : FileParser.parseAttrs [FileParser.kAutoescape, FileParser.kPrivate, FileParser.kKind] (fuel + 3) []
+      { st with p := p2 } = .ok ([], { st with p := p4 }) := by
+    unfold FileParser.parseAttrs
+    rw [fbind_ok hn3]
+    simp only [hr1', show (ItemType.tRightDelim == ItemType.tIdent) = false by decide, Bool.false_eq_true, if_false,
+      beq_self_eq_true, Bool.true_or, if_true]
+    rw [fbind_ok hb4]
+    rfl
+  have hx2' : FileParser.expect .tDotIdent { st with p := p1 } = .ok (di, { st with p := p2 }) := hx2
+  have hx5' : FileParser.expect .tRightDelim { st with p := p4 } = .ok (_, { st with p := p5 }) := hx5
+  have hx7' : FileParser.expect .tRightDelim { st with p := p6 } = .ok (_, { st with p := p7 }) := hx7
+  have hpt : FileParser.parseTemplate pf ef (fuel + 4) tt { st with p := p1 } =
+      .ok (Node.template tt.pos (st.ns ++ name) (.list lpos (.cons (Node.print pos e' ds') .nil)) .unspecified false,
+        { st with p := p7 }) := by
+    unfold FileParser.parseTemplate
+    rw [fbind_ok hx2', fbind_ok hpa]
+    simp only [FileParser.parseAutoescape, FileParser.boolAttr, FileParser.lookup, List.find?_nil, Option.map_none,
+      Option.getD_none, beq_self_eq_true, if_true]
+    rw [fbind_ok (show (pure _ : FP Autoescape) { st with p := p4 } = .ok (_, { st with p := p4 }) from rfl)]
+    rw [fbind_ok (show (pure false : FP Bool) { st with p := p4 } = .ok (_, { st with p := p4 }) from rfl)]
+    rw [fbind_ok hx5', fbind_ok hil]
+    rw [fbind_ok (show (get : FP FState) { st with p := p6 } = .ok ({ st with p := p6 }, { st with p := p6 }) from rfl)]
+    rw [fbind_ok hx7', hdv']
+    rfl
+  unfold beginTag
+  rw [fbind_ok hn1]
+  simp only [htt']
+  rw [fbind_ok hpt]
+  rfl
+
 end
 
 /-! ## from bytes to the print node, and injectivity -/
